@@ -99,6 +99,8 @@ func c19TmpDir() string {
 	return d
 }
 
+var c19UnknownKinds = map[string]string{}
+
 func tagOf(f reflect.StructField) string { return f.Tag.Get("rdp") }
 
 func c19Values(f reflect.StructField) []any {
@@ -107,6 +109,17 @@ func c19Values(f reflect.StructField) []any {
 		return []any{true, false}
 	case reflect.Int:
 		return []any{0, 1, -1, 2147483647, 3}
+	case reflect.Int8, reflect.Int16, reflect.Int32, reflect.Int64, reflect.Uint, reflect.Uint8, reflect.Uint16, reflect.Uint32, reflect.Uint64:
+		// whatever integer type a setting has (today all are int): small values converted to the field's type
+		var out []any
+		for _, v := range []int64{0, 1, 3, 100} {
+			out = append(out, reflect.ValueOf(v).Convert(f.Type).Interface())
+		}
+		return out
+	case reflect.Float32, reflect.Float64, reflect.Slice, reflect.Map, reflect.Ptr, reflect.Struct, reflect.Interface:
+		// a setting of a kind this check has no value domain for: say so instead of silently covering nothing
+		c19UnknownKinds[f.Name] = f.Type.Kind().String()
+		return nil
 	case reflect.String:
 		return []any{"", "x", "a:b:c", "ünï-codé 漢字", "#x", "false", "i:1", strings.Repeat("p", 4000), "with space inside", "C:\\Program Files\\app.exe /arg:1",
 			"%SystemRoot%\\explorer.exe", "100%sales %d %s %v %%", "$HOME ${x} $1 $$", "\"quoted\" 'single'", "{{ username }} {{ token }}", "tab\tinside"}
@@ -181,6 +194,9 @@ func c19(env *Env, rep *Report) {
 		}
 	}
 	rep.outcome("builder-pairs")
+	if len(c19UnknownKinds) > 0 {
+		rep.capf("settings of kinds without a value domain are not covered: %v", c19UnknownKinds)
+	}
 	// (2) templates through HandleDownload
 	gwURL, _ := url.Parse("https://gw.example:8443")
 	forcedAll := map[string]bool{"GatewayHostname": true, "FullAddress": true, "GatewayCredentialsSource": true, "GatewayAccessToken": true, "GatewayCredentialMethod": true, "GatewayUsageMethod": true, "Username": true, "Domain": true}
